@@ -2,7 +2,10 @@
 
 package gtree
 
-import "errors"
+import (
+	"errors"
+	"syscall"
+)
 
 // File-system model (engine side): plain Go, executed symbolically. The engine forwards os.Stat / os.MkdirAll /
 // os.Create / os.DirFS+fs.WalkDir to vfsStat / vfsMkdirAll / vfsCreate / vfsList; every other os mutator is
@@ -11,6 +14,9 @@ import "errors"
 func verifPathElems(p string) []string // engine: splits at '/', drops empty and "." elements; leading "/" kept as "/"
 
 var verifErrRefused = errors.New("verif: operation refused by the file system")
+
+// what a walk is told when a component of its root's path is a regular file
+var verifErrNotDir error = syscall.ENOTDIR
 
 type vEntry struct {
 	elems []string
